@@ -339,7 +339,7 @@ class Graph:
                 continue
             if not inner.startswith('{"from":'):
                 continue
-            ia = inner.find(',"act":{"name":')
+            ia = inner.find(',"act":{')
             it = inner.find(',"to":{', ia)
             il = inner.rfind(',"lvl":')
             if ia < 0 or it < 0 or il < 0:
